@@ -267,7 +267,8 @@ fn exec_iter_script<T: Tbl>(ctx: &mut Ctx, ev: &Ev) {
             None => return,
         }
     };
-    let expect = ip::expect_at(ip::Pos::new(n, start_blocks), &script);
+    let mut expect = ip::expect_at(ip::Pos::new(n, start_blocks), &script);
+    expect.terminal_on_exhausted = n <= 4;
     let want = expect.obs.clone();
     let huge = script.iter().any(|(k, a)| matches!(*k, ip::NTH | ip::SKIP_NEXT | ip::STEP_BY3 | ip::TAKE_COUNT) && *a >= (1u64 << 31));
     let ends = want.iter().any(|o| matches!(o, ip::Obs::Item(None)));
